@@ -676,6 +676,35 @@ def run_case(case):
                                 break
                         if worst:
                             bad.append(worst)
+            # a coarse-grained run that is refused inside the engine phase (an engine object with an option the library does not
+            # know) must leave the caller's script as it was: the same script then gives the plain run again
+            if r.random() < 0.5:
+                import ctypes
+                from strengths import RDScript
+                from strengths.librdengine import LibRDEngine
+                bogus = LibRDEngine(ctypes.CDLL(engines.install()), option="euler_", description="description", requires_molecules=False)
+                scr = RDScript(system=system, t_sample=list(ts_), **kw)
+                ncell_before, kind_before = scr.system.space.size(), type(scr.system.space).__name__
+                refused = False
+                try:
+                    st.simulate_script(scr, bogus, cgmap=list(cmap))
+                except Exception:
+                    refused = True
+                try:
+                    bogus.finalize()
+                except Exception:
+                    pass
+                cnt["refused_cgmap_runs"] = cnt.get("refused_cgmap_runs", 0) + 1
+                if refused:
+                    if scr.system.space.size() != ncell_before or type(scr.system.space).__name__ != kind_before:
+                        bad.append({"what": "exception-safety: after a refused simulate_script(cgmap=...) the caller's script holds another system",
+                                    "cells_before": ncell_before, "cells_after": scr.system.space.size(), "space_after": type(scr.system.space).__name__})
+                    else:
+                        again = st.simulate_script(scr, engines.get("euler"))
+                        ta, da = traj_si(again, n, S)
+                        tp2, dp2 = traj_si(st.simulate(system, list(ts_), engine=engines.get("euler"), **kw), n, S)
+                        if ta != tp2 or da != dp2:
+                            bad.append({"what": "exception-safety: after a refused simulate_script(cgmap=...) the same script no longer gives the plain run"})
         except Exception as e:
             bad.append({"what": "exception: simulate with a valid cgmap", "error": err(e)})
     return done()
